@@ -1075,3 +1075,33 @@ Q(name="e2_endpoint_accept_routing", props=["C09", "C08"], func=r"endpoint\.rs:6
   functions=["Endpoint::accept"], pre=lambda c: "true", post=acc_post,
   bounds="every path of accept up to the replay of buffered datagrams (paths entering that loop are outside; they are past the routing decisions): whenever the attempt is abandoned before a connection exists (stale, CIDs exhausted, Initial fails authentication) the Initial route for its destination CID is removed; whenever a connection is created the route is re-pointed to its handle; crypto, slab, hash maps opaque",
   replay=("endpoint_accept_auth_failure_native", lambda m: [dict(x=0)]))
+
+
+# ------------------------------------------------------------------ C09 / C08: every way of disposing of a connection attempt releases its route and its buffer
+def cui_post(c, p):
+    st = p.p.state
+    rem = p.called(r"ConnectionIndex::remove_initial$")
+    slab = p.called(r"Slab.*::(try_)?remove$")
+    dst = "*_2.%d.%d.%d" % (c.field("endpoint.rs", "Incoming", "packet"), c.field("packet.rs", "InitialPacket", "header"), c.field("packet.rs", "InitialHeader", "dst_cid"))
+    idx = "|in:*_2.%d|" % c.field("endpoint.rs", "Incoming", "incoming_idx")
+    ok = (len(rem) == 1 and rem[0][1][1] == ("agg", dst) and len(slab) == 1 and slab[0][1][1][0] == "val" and slab[0][1][1][1].t == idx)
+    return "true" if ok else "false"
+
+
+Q(name="e2_clean_up_incoming", props=["C09", "C08"], func=r"endpoint\.rs:61:1[^>]*>::clean_up_incoming$",
+  allowed_panics=r"attempt to compute|expect_failed|invalid key", functions=["Endpoint::clean_up_incoming"], pre=lambda c: "true", post=cui_post,
+  bounds="every attempt: the Initial route of the attempt's destination CID is removed and the attempt's own buffer slot is released; hash map / slab opaque",
+  replay=("endpoint_dispose_incoming_native", lambda m: [dict(refuse=0), dict(refuse=1)]))
+
+
+def disp_post(c, p):
+    names = [x for x in p.p.state.calls if re.search(r"Endpoint::clean_up_incoming$", x[0])]
+    ok = len(names) == 1 and names[0][1][0] == ("ref", "*_1") and names[0][1][1] == ("ref", "_2")
+    return "true" if ok else "false"
+
+
+for _f in ("refuse", "ignore"):
+    Q(name="e2_endpoint_%s_cleans_up" % _f, props=["C09", "C08"], func=r"endpoint\.rs:61:1[^>]*>::%s$" % _f,
+      allowed_panics=r"handle_error|capacity_overflow|alloc|attempt to", functions=["Endpoint::%s" % _f], pre=lambda c: "true", post=disp_post,
+      bounds="every attempt: Endpoint::%s disposes of the attempt through clean_up_incoming exactly once (see e2_clean_up_incoming)" % _f,
+      replay=("endpoint_dispose_incoming_native", lambda m: [dict(refuse=0), dict(refuse=1)]))
